@@ -95,7 +95,7 @@ func GateSpecs(c *Ctx, prop string) []GateSpec {
 				agg+".verifyResponse", agg+".verifyJustification", agg+".addResponse", agg+".DealCertified",
 				"share/vss/"+v+".RecoverSecret", "(*share/vss/"+v+".Dealer).ProcessResponse", "share/vss/"+v+".validT", "share/vss/"+v+".NewDealer", "share/vss/"+v+".NewVerifier")...)
 			s = append(s, GateSpec{Func: agg + ".addResponse", Sink: `mapupdate:\.responses$`, NoRet: true})
-			s = append(s, GateSpec{Func: agg + ".verifyJustification", Sink: `store:\.Approved$`, NoRet: true})
+			s = append(s, GateSpec{Func: agg + ".verifyJustification", Sink: `store:\.(Status)?Approved$`, NoRet: true})
 			s = append(s, GateSpec{Func: agg + ".verifyResponse", Sink: `call:\.addResponse$`, NoRet: true})
 		}
 		s = append(s, rets("(*share/vss/rabin.aggregator).EnoughApprovals")...)
